@@ -20,6 +20,10 @@ CHECKS = {
          "TLC checks that a transcription of DAGAnalyzer._ds_usage_analysis and of the execute_queries loop refines an abstract table store (operands materialised at execution, load at most once, release exactly once after the last reader, fetch of exactly the selected results) for EVERY script with <=3 (thorough: <=4) statements over 2 inputs; sampled scripts are run with the guarded hooks on and the recorded load/exec/fetch/release events with catalog snapshots, the real DatasetSchedule and the returned values are validated by TLC (VTLSchedule_Trace: one step per event).",
          "Events come from guarded hooks in execute_queries (MEANINGFUL_DATA_VTLENGINE_VERIF=1); reads of generated scripts are known by construction.",
          "TLC refinement check of the code transcription + trace validation of hook events"),
+ 'C16': ('model_checking',
+         "TLC explores the session life-cycle model VTLSession (mkdir, connect, configure, body events, close, rmtree) with the environment action Fail enabled at every step over 3 consecutive runs and checks NoLeak and FailureIsolation, for the shipped protection scope and for the requirement; on the real engine every fault point (connect, configure, each load, statement, fetch and file write) of generated and corpus scripts is hit by an injected duckdb.Error/OSError, alone and in sequences of 2-3 failing runs followed by a clean run, in in-memory and file-backed mode, with csv and parquet output; after each run the harness observes the private temp directory, open connections and file descriptors and the clean run's equality with the baseline; every hook-event log is validated against VTLSession by TLC (silent steps inferred).",
+         "Fault points are the guarded hooks (faults raised inside DuckDB itself are not simulated). Process-global state is judged through the following clean run's result.",
+         "TLC model checking with an environment fault action + fault injection at every hook point + trace validation"),
 }
 
 NOT_APPLICABLE = []
